@@ -45,7 +45,15 @@ def run_impl(case):
                 dut.init = init          # not refused at assignment time (not required by C15): put the good image back
             except (TypeError, ValueError):
                 reassigned += 1
-    mem0 = list(init) + [0] * (depth - len(init))
+    init = list(init) + [0] * (depth - len(init))
+    if rnd2.random() < 0.2:
+        # `init` is the memory's live image: rows patched in place before elaboration are part of it
+        for _ in range(rnd2.randint(1, 3)):
+            k = rnd2.randrange(depth)
+            init[k] = rnd2.getrandbits(dw)
+            dut.init[k] = init[k]
+        reassigned += 1
+    mem0 = list(init)
     lines = [f"case {depth} {dw} {gran} {int(writable)} " + " ".join(map(str, mem0))]
     sim = simutil.simulator(simutil.wrap(dut), case)
     sim.add_clock(1e-6)
